@@ -5,12 +5,14 @@ import (
 	"math"
 	"os"
 	"path/filepath"
+	"sort"
 	"strconv"
 	"strings"
 	"sync"
 	"testing"
 
 	"github.com/Vedant9500/WTF/internal/database"
+	"github.com/Vedant9500/WTF/internal/recovery"
 	"github.com/Vedant9500/WTF/verifharness/gen"
 	"github.com/Vedant9500/WTF/verifharness/proc"
 	"github.com/Vedant9500/WTF/verifharness/stat"
@@ -58,6 +60,28 @@ var c01Entries = []c01Entry{
 	{"monitored-simple", func(db *database.Database, q string, o database.SearchOptions) [][]database.SearchResult {
 		m := database.NewMonitoredDatabase(db)
 		return [][]database.SearchResult{m.SearchWithMonitoring(q, o.Limit), m.SearchWithMonitoring(q, o.Limit)}
+	}},
+	// the CLI's flow: universal search, then the last-resort recovery search bounded by the limit
+	{"cli-recovery", func(db *database.Database, q string, o database.SearchOptions) [][]database.SearchResult {
+		res := db.SearchUniversal(q, o)
+		if len(res) == 0 {
+			saved := os.Stdout
+			os.Stdout = devNull
+			rec, err := recovery.NewSearchRecovery().RecoverFromSearchFailure(q, nil, db)
+			os.Stdout = saved
+			if err == nil && len(rec) > 0 {
+				res = rec
+				lim := o.Limit
+				if lim <= 0 {
+					lim = 10
+				}
+				if len(res) > lim {
+					res = res[:lim]
+				}
+				sort.SliceStable(res, func(i, j int) bool { return res[i].Score > res[j].Score })
+			}
+		}
+		return [][]database.SearchResult{res}
 	}},
 }
 
@@ -154,6 +178,19 @@ func c01Engine(useShipped bool) func(t *rapid.T) {
 			opt.Limit = 1000
 		}
 		e := rapid.SampledFrom(c01Entries).Draw(t, "entry")
+		if e.name == "cli-recovery" && !useShipped && rapid.Bool().Draw(t, "recovery-query") {
+			// a nonsense word plus 1-3 fragments of database words: only the recovery search answers
+			toks := gen.Tokens(cmds)
+			if len(toks) > 0 {
+				q = "zzqxj"
+				for i := rapid.IntRange(1, 3).Draw(t, "frags"); i > 0; i-- {
+					w := rapid.SampledFrom(toks).Draw(t, "frag-word")
+					a := rapid.IntRange(0, len(w)-2).Draw(t, "frag-from")
+					q += " " + w[a:a+rapid.IntRange(2, len(w)-a).Draw(t, "frag-len")]
+				}
+				qcls = "recovery-fragments"
+			}
+		}
 		limit := opt.Limit
 		if limit <= 0 {
 			limit = c01Default[e.name]
@@ -285,7 +322,11 @@ func TestC01_CLI(t *testing.T) {
 			q = gen.Typo(t, rapid.SampledFrom(toks).Draw(t, "w"))
 		case "recovery":
 			w := rapid.SampledFrom(toks).Draw(t, "w")
-			q = "zzqxj " + w[:2] // nonsense word + 2-letter fragment: only the last-resort search can answer
+			q = "zzqxj " + w[:2] // nonsense word + fragments: only the last-resort search can answer
+			if rapid.Bool().Draw(t, "two-frags") {
+				w2 := rapid.SampledFrom(toks).Draw(t, "w2")
+				q += " " + w2[len(w2)-2:] + " " + w[1:]
+			}
 		default:
 			w := rapid.SampledFrom(toks).Draw(t, "w")
 			q = w[:rapid.IntRange(1, len(w)).Draw(t, "n")]
